@@ -284,7 +284,8 @@ func (self *Compiler) compileExpr(node ast.AnalyzedExpression) {
 
 		fields := make(map[string]*value.Value)
 		for _, field := range node.Fields {
-			fields[field.Key.Ident()] = value.ZeroValue(field.Expression.Type())
+			// Only a slot for the assignment below: a zero value does not exist for every type (functions, `any`).
+			fields[field.Key.Ident()] = value.NewValueNull()
 		}
 
 		object := *value.NewValueObject(fields)
